@@ -16,7 +16,7 @@ func C18_writer_reset() {
 	w := NewWriterBuffer(dst0, vSide(server0), ws.OpText, make([]byte, rawLen))
 	// arbitrary history, expressed as an arbitrary state
 	w.n = vChoose("n", 4)
-	w.fseq = vInt("fseq")
+	vSetIntLike(&w.fseq, vInt("fseq"))
 	vAssume(w.fseq >= 0)
 	w.dirty = vBool("dirty")
 	w.noFlush = vBool("noflush")
